@@ -23,7 +23,8 @@ SPEC = dict(
                  "real git: only messages that git's own whitespace/comment clean-up leaves unchanged are read back"],
     required=["fake_git_runs", "fake_hg_runs", "real_git_runs", "k12_evaluations", "class:squote", "class:dquote",
               "class:backslash", "class:newline", "class:leading-dash", "class:dollar", "class:backtick",
-              "hostile_paths_checked", "templates_from_config", "config_templates_with_OLD_NEW_words"],
+              "hostile_paths_checked", "templates_from_config", "config_templates_with_OLD_NEW_words",
+              "templates_from_setup_cfg", "ini_templates_with_percent"],
     anchors=[("vcs", "commit"), ("cli", "_sub_msg_template"), ("cli", "update")],
 )
 
@@ -37,7 +38,8 @@ CLASSES = {
     "backtick": ["`id`", "a`b"],
     "newline": ["line1\nline2", "subject\n\nbody text", "x\ny\nz"],
     "unicode": ["ünïcödé", "日本語", "🚀 release", " nbsp"],
-    "shell": ["a;b", "a|b", "a&b", "a>b", "*", "?", "~", "#hash", "%s", "(x)"],
+    "shell": ["a;b", "a|b", "a&b", "a>b", "*", "?", "~", "#hash", "(x)"],
+    "percent": ["%s", "100% done", "%%", "%(name)s", "50%-off"],
 }
 PLACEHOLDERS = ["{new_version}", "{old_version}", "{new_version_pep440}", "{old_version_pep440}", "{NEW_VERSION}",
                 "{OLD_VERSION}"]
@@ -89,6 +91,20 @@ def cases(ctx):
         yield {"kind": "real", "seed": R.getrandbits(48)}
 
 
+def build_project_ini(R, names, commit_msg_cfg, tag_msg_cfg):
+    """the same project configured through setup.cfg (only names / values expressible in INI)"""
+    lines = ["[bumpver]", 'current_version = "v1.2.3-beta"', 'version_pattern = "vMAJOR.MINOR.PATCH[-TAG]"',
+             "commit = True", "tag = True", "push = False",
+             f'commit_message = "{commit_msg_cfg}"', f'tag_message = "{tag_msg_cfg}"', "", "[bumpver:file_patterns]",
+             "setup.cfg =", '    current_version = "{version}"']
+    files = {}
+    for n in names:
+        lines += [f"{n} =", "    ver {version}"]
+        files[n] = "text\nver v1.2.3-beta\n"
+    files["setup.cfg"] = "\n".join(lines) + "\n"
+    return files
+
+
 def build_project(R, names, commit_msg_cfg=None, tag_msg_cfg=None):
     lines = ["[bumpver]", 'current_version = "v1.2.3-beta"', 'version_pattern = "vMAJOR.MINOR.PATCH[-TAG]"',
              "commit = true", "tag = true", "push = false"]
@@ -135,11 +151,22 @@ def run_fake(ctx, case):
             tm, used_t = gen_template(R)
         else:
             via_cfg = False
-    files = build_project(R, names, commit_msg_cfg=cm if via_cfg else None, tag_msg_cfg=tm if via_cfg else None)
+    ini = via_cfg and R.random() < 0.5
+    if ini:
+        names = [n for n in names if not any(c in n for c in "=:#;%[]") and n == n.strip() and "  " not in n] or ["plain.txt"]
+        ini = not any(t.startswith(("#", ";")) for t in (cm, tm))
+    cfg_name = "setup.cfg" if ini else "bumpver.toml"
+    mk = build_project_ini if ini else (lambda R_, n_, commit_msg_cfg=None, tag_msg_cfg=None:
+                                        build_project(R_, n_, commit_msg_cfg=commit_msg_cfg, tag_msg_cfg=tag_msg_cfg))
+    files = mk(R, names, commit_msg_cfg=cm if via_cfg else None, tag_msg_cfg=tm if via_cfg else None)
+    if ini:
+        ctx.count("templates_from_setup_cfg")
+        if "%" in cm + tm:
+            ctx.count("ini_templates_with_percent")
     results = {}
     for variant, (c_t, t_t) in (("benign", ("m", "t")), ("hostile", (cm, tm))):
         d = harness.new_project(files if variant == "hostile" or not via_cfg else
-                                build_project(R, names, commit_msg_cfg="m", tag_msg_cfg="t"))
+                                mk(R, names, commit_msg_cfg="m", tag_msg_cfg="t"))
         fake = harness.FakeVCS(d, vcs)
         try:
             fake.set_out("status", "")
@@ -219,8 +246,8 @@ def run_fake(ctx, case):
     adds = calls(evs, "add")
     got_paths = sorted(e["argv"][-1] for e in adds)
     ctx.count("hostile_paths_checked", len(hostile_names))
-    if got_paths != sorted(names + ["bumpver.toml"]):
-        ctx.violation("other:staged_paths_not_verbatim", f"add calls staged {got_paths}, configured {sorted(names + ['bumpver.toml'])}",
+    if got_paths != sorted(names + [cfg_name]):
+        ctx.violation("other:staged_paths_not_verbatim", f"add calls staged {got_paths}, configured {sorted(names + [cfg_name])}",
                       case=case)
 
 
